@@ -90,13 +90,78 @@ def tag_compare_shape(chk, src, fn, get_tag, bound):
         chk.violation(R, inst, F.where(o), det, key='%s %s' % (R, fn))
 
 
+def chunk_completion(chk):
+    """Split-independence of the additional data, necessary structural part: when an injection completes a partially filled
+    block the completed block must reach the authenticator (GHASH / CBC-MAC) -- immediately, or through the mode's own
+    "full block pending" state -- on every path.  Hypotheses are on the context state (bytes buffered) and the length."""
+    from ..oblig import FieldLoad
+    R = 'aead-chunk-completion'
+    obs = []
+
+    def buf_arg(struct_src, struct, field, argidx):
+        u = build.load_unit(struct_src)
+        off = irf.Layouts(u).field(struct, field)[0]
+
+        def pred(F, i):
+            if i['op'] != 'call' or i.get('callee') is not None or len(i['ops']) <= argidx:
+                return False
+            b, o = F.addr_of(i['ops'][argidx])
+            return b == {'k': 'a', 'v': 0} and o == off
+        return pred
+
+    def onpath(pred, desc):
+        return E(fold.expect_on_all_paths, desc, pred, desc)
+    # ---- GCM: bytes buffered = count_aad & 15; no pending-full state exists, so a completed block is hashed at once
+    s = 'src/aead/gcm.c'
+    L = irf.Layouts(build.load_unit(s))
+    o_cnt, sz = L.field('br_gcm_context', 'count_aad')[:2]
+    gh_buf = buf_arg(s, 'br_gcm_context', 'buf', 2)
+    for hyp, what in ((('assume', 'ugt', 11), 'more than the 11 missing bytes'), (('assume', 'eq', 11), 'exactly the 11 missing bytes')):
+        obs.append(Ob(s, 'br_gcm_aad_inject', FieldLoad(0, o_cnt, 'count_aad', size=sz), ('pin', 5),
+                      onpath(gh_buf, 'GHASH is applied to ctx->buf on every path'), ('pin', 0),
+                      '5 AAD bytes are buffered and the call brings %s: the completed block must be hashed, or those 16 bytes never reach the tag' % what,
+                      rule=R, extra_hyps=[(Var('len', 'param'), hyp)]))
+    # ---- CCM
+    s = 'src/aead/ccm.c'
+    L = irf.Layouts(build.load_unit(s))
+    o_ptr, sz = L.field('br_ccm_context', 'ptr')[:2]
+    mac_buf = buf_arg(s, 'br_ccm_context', 'buf', 2)
+    for hyp, what in ((('assume', 'ugt', 11), 'more than the 11 missing bytes'), (('assume', 'eq', 11), 'exactly the 11 missing bytes')):
+        obs.append(Ob(s, 'br_ccm_aad_inject', FieldLoad(0, o_ptr, 'ptr', size=sz, nth=0), ('pin', 5),
+                      onpath(mac_buf, 'CBC-MAC is applied to ctx->buf on every path'), ('pin', 0),
+                      '5 AAD bytes are buffered and the call brings %s: the completed block must enter the CBC-MAC' % what,
+                      rule=R, extra_hyps=[(Var('len', 'param'), hyp)]))
+    # ---- EAX: ptr == 16 means "full block pending", consumed by do_cbcmac_chunk
+    s = 'src/aead/eax.c'
+    L = irf.Layouts(build.load_unit(s))
+    o_ptr, sz = L.field('br_eax_context', 'ptr')[:2]
+    mac_buf = buf_arg(s, 'br_eax_context', 'buf', 2)
+    NI = ('do_cbcmac_chunk',)
+    pend = ALL(E(fold.expect_stores_only, 'ctx->ptr := 16 (full block pending)', 0, o_ptr, {16}),
+               E(fold.expect_call_dominates_rets, 'do_cbcmac_chunk on every path', 'do_cbcmac_chunk'))
+    for k in (5, 0):
+        obs.append(Ob(s, 'br_eax_aad_inject', FieldLoad(0, o_ptr, 'ptr', size=sz), ('pin', k), pend, ('pin', 16),
+                      '%d AAD bytes are buffered and the call brings more than the %d missing ones: the block completed in ctx->buf must be marked pending '
+                      '(ctx->ptr == 16 is what do_cbcmac_chunk tests) before the rest is processed, or those 16 bytes never reach the tag' % (k, 16 - k),
+                      rule=R, noinline=NI, extra_hyps=[(Var('len', 'param'), ('assume', 'ugt', 16 - k))]))
+    obs.append(Ob(s, 'br_eax_aad_inject', FieldLoad(0, o_ptr, 'ptr', size=sz), ('pin', 5),
+                  E(fold.expect_stores_only, 'ctx->ptr := 16 (full block pending)', 0, o_ptr, {16}), None,
+                  '5 AAD bytes are buffered and the call brings exactly the 11 missing ones: the full block is left pending', rule=R, noinline=NI,
+                  extra_hyps=[(Var('len', 'param'), ('assume', 'eq', 11))]))
+    obs.append(Ob(s, 'do_cbcmac_chunk', FieldLoad(0, o_ptr, 'ptr', size=sz), ('pin', 16),
+                  onpath(mac_buf, 'CBC-MAC is applied to ctx->buf on every path'), ('pin', 5),
+                  'a pending full block is authenticated before any further data', rule=R, extra_hyps=[(Var('len', 'param'), ('assume', 'ugt', 0))]))
+    oblig.run_obligations(chk, obs)
+
+
 def run(tier):
     chk = report.Check('C14', tier,
                        'Static: br_ccm_reset returns 0 (and reaches no block-cipher call) under each forbidden parameter range of RFC 3610 / '
                        'SP 800-38C (nonce < 7, > 13, tag < 4, > 16, odd tag, length not representable); the tag verdict of GCM, EAX and CCM is '
                        'EQ0 of an OR-accumulation of computed[u] ^ caller[u] over the full requested length, the computed tag being the buffer '
-                       'filled by get_tag; check_tag delegates to check_tag_trunc with 16. NOT decided: ciphertext/tag values, call-splitting '
-                       'invariance, decrypt-inverts-encrypt.',
+                       'filled by get_tag; check_tag delegates to check_tag_trunc with 16; in the AAD injection of the three modes a block completed across calls always '
+                       'reaches the authenticator (GHASH / CBC-MAC), directly or through the mode\'s pending-block state. NOT decided: ciphertext/tag values, '
+                       'full call-splitting invariance (only the block-completion step), decrypt-inverts-encrypt.',
                        trusted=['clang/opt 14', 'sa/fold.py'])
     s = 'src/aead/ccm.c'
     R = 'ccm-reset-params'
@@ -149,5 +214,6 @@ def run(tier):
     tag_compare_shape(chk, 'src/aead/gcm.c', 'br_gcm_check_tag_trunc', 'br_gcm_get_tag', 'len')
     tag_compare_shape(chk, 'src/aead/eax.c', 'br_eax_check_tag_trunc', 'br_eax_get_tag', 'len')
     tag_compare_shape(chk, 'src/aead/ccm.c', 'br_ccm_check_tag', 'br_ccm_get_tag', 'get_tag()')
+    chunk_completion(chk)
     chk.floor('obligations', len(chk.obls), 18)
     return chk.finish()
